@@ -52,7 +52,7 @@ impl KInst {
             (n, cap, profit, weight)
         } else {
             let mut rng = Rng::derive(seed, &[0x4B, size as u64]);
-            let n = match size { KSZ_TINY => rng.range(3, 6), KSZ_SMALL => rng.range(6, 12), KSZ_MEDIUM => rng.range(12, 20), KSZ_LARGE => rng.range(24, 36), _ => rng.range(6, 10) } as usize;
+            let n = match size { KSZ_TINY => rng.range(3, 6), KSZ_SMALL => rng.range(6, 12), KSZ_MEDIUM => rng.range(12, 20), KSZ_LARGE => rng.range(28, 44), _ => rng.range(6, 10) } as usize;
             let wmax = if size == KSZ_FEWWEIGHTS { 2 } else { 9 };
             let weight: Vec<usize> = (0..n).map(|_| rng.range(1, wmax) as usize).collect();
             let profit: Vec<isize> = (0..n).map(|_| rng.range(1, if size == KSZ_FEWWEIGHTS { 4 } else { 12 }) as isize).collect();
